@@ -151,6 +151,9 @@ def probes(rng, n_random):
     add("provider_as_generator discard", RUNTIME)
     for op in ["plus", "times", "pluseq"]:
         add("raster_shape " + op, INVALID)
+    for op in ["move_assign_temporary", "move_assign_named", "move_assign_then_reassign", "move_construct",
+               "copy_construct", "copy_assign", "write_through"]:
+        add("raster_view " + op, None)    # wrapping caller storage never takes ownership of it
     add("network_no_node", INVALID)
     add("model_unknown_names bogus N cauchy N", INVALID)
     add("model_unknown_names cauchy bogus cauchy N", INVALID)
